@@ -4,6 +4,7 @@ Integer part (bn_read_bin / bn_write_bin / bn_size_bin, bn_read_str / bn_write_s
 -/
 import RelicVerif.Lemmas.BnConv
 import RelicVerif.Lemmas.EpConv
+import RelicVerif.Lemmas.Ep2Conv
 
 namespace Relic.Props.C07
 open Relic.Model
@@ -96,5 +97,40 @@ theorem ep_compressed_two_torsion_malleable (x : Ctx) (hnb : x.c.p ≤ 256 ^ x.n
   readBin_twoTorsion_malleable x hnb hnb0 hs hc hprime px hon
 
 end Ep
+
+/-! ### points of the twist over Fp2 (ep2_write_bin / ep2_read_bin, ep2_pck / ep2_upk) -/
+section Ep2
+open Relic.Model.Ep2Conv Relic.Lemmas.Ep2Conv Relic.Spec.CurveX
+
+/-- decoding accepts only points that satisfy the curve equation (with reduced coordinates: `onCurve` includes canonicity) -/
+theorem ep2_decode_valid (x : Relic.Model.Ep2Conv.Ctx) (bin : List Nat) (P : List Nat × List Nat)
+    (h : Relic.Model.Ep2Conv.readBin x bin = some (some P)) : onCurve x.c (some P) = true :=
+  Relic.Lemmas.Ep2Conv.readBin_valid x bin P h
+
+/-- decode(encode(P)) = P in the uncompressed format at the advertised length, for every point of the twist -/
+theorem ep2_decode_encode_unpacked (x : Relic.Model.Ep2Conv.Ctx) (fb : Bool) (a0 a1 b0 b1 : Nat) (hnb : 0 < x.nb)
+    (hp : x.c.d.p ≤ 256 ^ x.nb) (ha0 : a0 < x.c.d.p) (ha1 : a1 < x.c.d.p) (hb0 : b0 < x.c.d.p) (hb1 : b1 < x.c.d.p)
+    (hon : onCurve x.c (some ([a0, a1], [b0, b1])) = true) :
+    (Relic.Model.Ep2Conv.writeBin x fb (4 * x.nb + 1) (some ([a0, a1], [b0, b1])) false).bind (Relic.Model.Ep2Conv.readBin x)
+      = some (some ([a0, a1], [b0, b1])) :=
+  readBin_writeBin_unpacked x fb a0 a1 b0 b1 hnb hp ha0 ha1 hb0 hb1 hon
+
+/-- the compression bit separates y from −y (so the compressed string determines the point), with the rule of ep2_upk, which the
+    repaired ep2_pck writes -/
+theorem ep2_compression_bit_separates (p y0 y1 : Nat) (hodd : p % 2 = 1) (h0 : y0 < p) (h1 : y1 < p) (hne : y0 ≠ 0 ∨ y1 ≠ 0) :
+    signPck true p [(p - y0) % p, (p - y1) % p] ≠ signPck true p [y0, y1] := by
+  rw [signPck_fallback, signPck_fallback]
+  exact signUpk_separates p y0 y1 hodd h0 h1 hne
+
+/-- with the rule ep2_pck used at the pinned commit the statement is false (y and −y in Fp share the bit); found by this check on the
+    implementation (twist points with y in Fp decoded to −P), repaired in /repo -/
+theorem ep2_compression_bit_pinned_counterexample :
+    signPck false 7 [5, 0] = signPck false 7 [(7 - 5) % 7, (7 - 0) % 7] ∧ signUpk 7 [5, 0] ≠ signPck false 7 [5, 0] :=
+  signPck_pinned_not_separating
+
+/-- premises satisfiable -/
+example : signPck true 7 [5, 0] = 1 ∧ signPck true 7 [2, 0] = 0 ∧ (7 % 2 = 1) := by decide
+
+end Ep2
 
 end Relic.Props.C07
